@@ -11,6 +11,7 @@ import gc
 import sys
 
 from ..core import Violation, HarnessError, InjectedFault, stream, sut, exc_name
+from ..core import deep
 from ..values import raw
 from . import c05
 
@@ -50,8 +51,8 @@ class Prop:
         c = stream(seed, "config")
         r = stream(seed, "ops")
         er = stream(seed, "env")
-        nobj = c.randint(2, 4)
-        nops = c.choice([5, 10, 16, 24, 40])
+        nobj = deep(c, [2, 3, 4], [5, 6])
+        nops = deep(c, [5, 10, 16, 24, 40], [60, 90])
         drop_rate = c.choice([0.0, 0.0, 0.04, 0.1])
         ctr = [100]
 
